@@ -113,6 +113,16 @@ seed={
 'C12-f-4':('`scan` loops give up after 1 s of monotonic time (`Instant`)',True,''),
 'C12-f-5':('lazy: final sweep forces a `HashSet` of unforced thunks (which failing value is reported depends on hash order)',True,''),
 'C12-f-6':('lazy: stack-usage guard measured from the highest stack address ever seen on the thread',False,'caller stack depth as an environment dimension (steps of a history started up to 3 MiB deeper)'),
+'C04-g-1':('lazy: per-node memo of the ancestor that last supplied an inherited value, shared by all variable names',False,'a second inherited name, defined on the root and on nearer containers, read from the same nodes as the first'),
+'C04-g-2':('strict: a second `let` with an equal value is accepted silently',True,''),
+'C08-g-1':('checker: a `var` stays local until something non-local is assigned to it (a loop body is checked once)',False,'near miss: mutable flag used as a condition, then assigned a scoped-derived value inside a loop'),
+'C08-g-2':('lazy: scopes of one name forced incrementally, earlier definitions visible while the next scope is computed (`let @m.nx.nx = ..`)',False,'a definition whose scope reads the variable being defined, next to the base definition, same query shape; given its own probability (first placement was too rare: caught only at 5x scale)'),
+'C09-g-1':('`Attributes::add` merges two set values instead of reporting a conflict',True,''),
+'C09-g-2':('strict: an edge attribute that already exists is rejected even when the value is equal',True,''),
+'C11-g-1':('strict: attributes generated by a shorthand bypass `Attribute::execute` and lose their poll',False,'template: one `attr` whose single attribute is a shorthand expanding to 2-8 attributes'),
+'C11-g-2':('lazy `scan`: per-arm poll inside a `filter_map` closure, `check(..).ok()?` (cancellation makes the arm "not match")',True,''),
+'C19-g-1':('`--global` names validated as ASCII identifiers',False,'declared globals with non-ASCII names; undeclared globals named `build.id`, `a-b`, `x y`, `1st`, `π`'),
+'C19-g-2':('sources above 256 KiB are executed lazily without `--lazy`',False,'a program that fails strictly and succeeds lazily, on sources of 60 B to 1.2 MB'),
 'C19-a-1':('`--output` file opened without truncation',True,''),
 'C19-a-2':('parse-error discovery skips MISSING anonymous tokens',False,'MISSING-token-only syntax faults in sources'),
 'C19-b-1':('`--global` values split at commas',False,'global values with commas, option-like and quoted values'),
@@ -129,7 +139,7 @@ for k in sorted(mut):
 n=len(seed); first=sum(1 for v in seed.values() if v[1]); now=sum(1 for k in seed if status.get(f'seeded/{k}/patch.diff')=='caught')
 text=f'''### 10.3 Seeded changes (written by independent sub-agents) and my own mutants
 
-{n} changes were written in six waves by sub-agents that were given only the text of one
+{n} changes were written in seven waves by sub-agents that were given only the text of one
 property and a scratch worktree (later waves: also one-line descriptions of the
 ideas already explored and a focus area, to force different mechanisms).
 Every change compiles and passes the 162 tests + doctest; each has a demonstration that fails
